@@ -49,9 +49,18 @@ def _reified_shape_trees(c, n, model):
             args = [(r + maybe, t) for (r, t), maybe in zip(args, ['~e.1', '', ''])]
         rnode = (rv, [('/', concept + c.rng.choice(['', '~e.4']))] + args)
         shape = c.rng.random()
+        if c.rng.random() < 0.12:
+            # a collapsible node directly under the top, followed by a nested node and a re-entrancy under a reifiable role
+            rr = c.rng.choice([r for r, _, _, _ in table])
+            # (the way reify_edges writes it: one argument role is the inverted edge from the parent, the other is inside)
+            inner, outer = (trole, srole) if c.rng.random() < 0.7 else (srole, trole)
+            rnode2 = (rv, [('/', concept), (inner, c.rng.choice(['7', '-', '"s"', ('c', [('/', 'gamma')])]))])
+            yield gen.node_to_json(('a', [('/', 'alpha'), (outer + '-of', rnode2),
+                                          (':ARG0', ('b', [('/', 'beta')])), (rr + c.rng.choice(['', '-of']), 'b')]))
+            continue
         if shape < 0.15:
             node = rnode                                                   # the reified node is the top
-        elif shape < 0.55:
+        elif shape < 0.45:
             node = ('a', [('/', 'alpha'), (c.rng.choice([':ARG0', ':ARG1', ':op1']), rnode)])      # referenced: nested as an argument
         elif shape < 0.75:
             node = ('a', [('/', 'alpha'), (c.rng.choice([':ARG0-of', ':ARG1-of']), rnode)])        # attached by an inverted edge
@@ -59,6 +68,12 @@ def _reified_shape_trees(c, n, model):
             node = ('a', [('/', 'alpha'), (':ARG0', rnode), (':ARG1', rv)])                         # referenced twice
         else:
             node = ('a', [('/', 'alpha'), (':ARG2', ('e', [('/', 'eps'), (':ARG0', rnode)])), (':ARG1-of', ('f', [('/', 'phi')]))])
+        # more branches after the reified node: a nested node and a re-entrancy to it under a reifiable role (no Push marker,
+        # so appears_inverted has to replay the node contexts past whatever POPs a dereification left behind)
+        if node is not rnode and c.rng.random() < 0.6:
+            rrole = c.rng.choice([r for r, _, _, _ in table])
+            node[1].append((c.rng.choice([':ARG2', ':op2']), ('k', [('/', 'kappa')])))
+            node[1].append((rrole + c.rng.choice(['', '-of']), c.rng.choice(['k', 'a', '7'])))
         # variables must be unique: drop the tree if a filler collides
         vs = _vars_of(gen.node_to_json(node))
         if len(vs) != len(set(vs)):
@@ -103,9 +118,12 @@ def check_C12(c):
             jobs.append(('tr_program', dict(node=jn, ops=ops, model=model, start=st)))
     for model in ('amr', 'miniamr'):
         for jn in _reified_shape_trees(c, _q(c, 250, 6000), model):
-            ops = c.rng.choice([['dereify_edges'], ['dereify_edges', 'reify_edges'], ['dereify_edges', 'reify_attributes'],
+            ops = c.rng.choice([['dereify_edges'], ['dereify_edges', 'reify_edges'], ['dereify_edges', 'reify_edges'], ['dereify_edges', 'reify_attributes'],
                                 ['indicate_branches', 'dereify_edges'], ['reify_attributes', 'dereify_edges']])
             jobs.append(('tr_program', dict(node=jn, ops=ops, model=model, start=None if c.rng.random() < 0.7 else {'strip': True})))
+            if ops != ['dereify_edges', 'reify_edges']:
+                # collapse, then reify again: the markers a dereification leaves behind must not confuse the layout diagnostics
+                jobs.append(('tr_program', dict(node=jn, ops=['dereify_edges', 'reify_edges'], model=model)))
     traces = pmake(jobs)
     c.judge('J_Transform', traces, 'programs', nontrivial=lambda t: any(s['ok'] and s['g']['tr'] != t['g0']['tr'] for s in t['steps']))
     c.rule = ('random well-formed trees over the AMR / MiniAMR role and concept inventories (reifiable roles on edges, attributes, '
